@@ -14,6 +14,7 @@ package main
 //     doc <Fn>                     is Fn documented as concurrency safe?
 //     race <Class> <field> <A> <B> a race report of the detector on location class Class.field
 //                                  between API functions A and B: does the model predict it?
+//     cover <Fn>                   was Fn called in this run / does the model have a lock footprint for it
 //     lin <G> <prog>.. <final>     per-goroutine write programs and the observed final state:
 //                                  is there a sequential order (program order kept) producing it?
 //
@@ -235,6 +236,7 @@ var c15FnLoc = map[string][2]string{
 	"xlsxWorksheet.prepareCellStyle": {"Ws", "SheetData"}, "xlsxWorksheet.mergeCellsParser": {"Ws", "MergeCells"},
 	"setCellXfs": {"Styles", "tables"}, "getStyleID": {"Styles", "tables"}, "newNumFmt": {"Styles", "tables"},
 	"formattedValue": {"Styles", "tables"}, "xlsxStyleSheet.getCustomNumFmtCode": {"Styles", "tables"},
+	"getFromStringItem": {"File", "sharedStringItem"},
 	"calcChainReader": {"File", "CalcChain"}, "deleteCalcChain": {"File", "CalcChain"},
 	"workbookReader": {"File", "WorkBook"}, "stylesReader": {"File", "Styles"}, "contentTypesReader": {"File", "ContentTypes"},
 	"xlsxWorksheet.setColStyle": {"Ws", "Cols"}, "xlsxWorksheet.setColWidth": {"Ws", "Cols"}, "flatCols": {"Ws", "Cols"},
@@ -387,6 +389,12 @@ func runC15(r *Run, rng *Rng, replay string) {
 		jobs = append(jobs, job{seed: r.Seed, only: -1, n: 0, repeat: 1})
 	}
 	seenRace := map[string]bool{}
+	byFn := map[string]map[string]bool{} // function -> scenario kinds that called it
+	defer func() {
+		if replay == "" {
+			c15Coverage(r, byFn)
+		}
+	}()
 	for _, jb := range jobs {
 		for rep := 0; rep < jb.repeat; rep++ {
 			outFile := filepath.Join(r.Dir, fmt.Sprintf("c15race-%d-%d.json", jb.only, rep))
@@ -458,6 +466,10 @@ func runC15(r *Run, rng *Rng, replay string) {
 				r.Stat(fmt.Sprintf("gomaxprocs:%d", sr.Procs))
 				for fn, n := range sr.Fns {
 					r.Stats["calls:"+fn] += n
+					if byFn[fn] == nil {
+						byFn[fn] = map[string]bool{}
+					}
+					byFn[fn][sr.Name] = true
 				}
 				for p, n := range sr.Payloads {
 					r.Stats["payload:"+p] += n
@@ -494,6 +506,58 @@ func runC15(r *Run, rng *Rng, replay string) {
 				}
 			}
 		}
+	}
+}
+
+// c15Coverage: after the stress run, one `cover` line per documented function / iterator method
+// (Go: was it called at least once in this run; Lean: does it have a modelled lock footprint) and
+// the coverage table (function x mutexes x locations x scenarios), obtained from the Lean driver
+// as a co-process, in the notes of the evidence.
+func c15Coverage(r *Run, byFn map[string]map[string]bool) {
+	iter := map[string]string{"Rows.Next": "Rows", "Rows.Columns": "Rows", "Rows.Close": "Rows", "Cols.Next": "Cols", "Cols.Rows": "Cols"}
+	fns := append([]string{}, c15Documented...)
+	for _, m := range []string{"Rows.Columns", "Cols.Rows"} {
+		fns = append(fns, m)
+	}
+	var ask []string
+	for _, fn := range fns {
+		called := fn
+		if c, ok := iter[fn]; ok {
+			called = c
+		}
+		res := "unstressed"
+		if r.Stats["calls:"+called] > 0 {
+			res = "covered"
+		}
+		r.Op("cover "+fn, res)
+		ask = append(ask, "table "+fn)
+	}
+	drv := os.Getenv("VH_DRV")
+	if drv == "" {
+		return
+	}
+	cmd := exec.Command(drv)
+	cmd.Stdin = strings.NewReader(strings.Join(ask, "\n") + "\n")
+	out, err := cmd.Output()
+	if err != nil {
+		r.Notes = append(r.Notes, "coverage table unavailable: "+err.Error())
+		return
+	}
+	lines := strings.Split(strings.TrimSpace(string(out)), "\n")
+	for i, fn := range fns {
+		if i >= len(lines) {
+			break
+		}
+		called := fn
+		if c, ok := iter[fn]; ok {
+			called = c
+		}
+		var kinds []string
+		for k := range byFn[called] {
+			kinds = append(kinds, k)
+		}
+		sort.Strings(kinds)
+		r.Notes = append(r.Notes, fmt.Sprintf("coverage %s | calls=%d | %s | scenarios=%s", fn, r.Stats["calls:"+called], lines[i], strings.Join(kinds, ",")))
 	}
 }
 
